@@ -1,5 +1,5 @@
 From Coq Require Import String.
-From V Require Import Common.Base C14.Compat C14.Spec C14.LowerGraph C14.CompatProofs C14.TableProofs C14.Constructs C14.Sites.
+From V Require Import Common.Base C14.Compat C14.Spec C14.LowerGraph C14.CompatProofs C14.TableProofs C14.Constructs C14.Sites C14.Css C14.CssProofs.
 (* non-vacuity / sanity: concrete values meeting the hypotheses of the theorems *)
 
 (* es_monotone: optional chaining is unsupported for ES2019 and supported for ES2020 *)
@@ -87,4 +87,20 @@ Example site_counts :
   has_count FArrow = 13 /\ mark_count FDestructuring = 6 /\ marked_via_markAsyncFn FAsyncAwait = true
   /\ in_mark_cases FBigint MWarning = true /\ in_mark_cases FClass MNotSupportedYet = true
   /\ Nat.ltb 200 (length feature_sites) = true.
+Proof. vm_compute. repeat split; reflexivity. Qed.
+
+(* CSS: chrome 87 lacks nesting and :is, chrome 120 has both; es2020 alone changes nothing *)
+Example css_chrome_versions :
+  existsb (css_feature_eqb CNesting) (css_unsupported_list [(EChrome, sv3 (87, 0, 0))]) = true
+  /\ existsb (css_feature_eqb CIsPseudoClass) (css_unsupported_list [(EChrome, sv3 (87, 0, 0))]) = true
+  /\ css_unsupported_list [(EChrome, sv3 (120, 0, 0))] = []
+  /\ css_unsupported_list [(EES, mkSemver [2020] false); (ENode, mkSemver [12] false)] = []
+  /\ vle3 (87, 0, 0) (120, 0, 0).
+Proof. vm_compute. repeat split; try reflexivity. left. reflexivity. Qed.
+
+(* CSS lowering: nesting over several parents uses :is() only when :is is supported *)
+Example css_nesting_is :
+  css_compile (css_fset_of [CNesting]) [CNesting] = [CIsPseudoClass]
+  /\ css_compile (css_fset_of [CNesting; CIsPseudoClass]) [CNesting] = []
+  /\ css_compile (css_fset_of [CColorFunctions; CHexRGBA]) [CColorFunctions] = [CColorFunctions].
 Proof. vm_compute. repeat split; reflexivity. Qed.
